@@ -33,7 +33,7 @@ FLOORS = {"instances_checked": (3000, 60000), "pairs_compared": (6000, 120000), 
 SHARDS_QUICK = 8
 
 PRISTINE = {}  # id(constant object placed in a class body) -> deep copy taken at declaration
-FLAT = ["A", "B", "C", "S2", "TX"]  # (S2 / TX: names that merely BEGIN like the sections S / T)
+FLAT = ["A", "B", "C", "S2", "TX", "K-1"]  # (S2 / TX: names that merely BEGIN like the sections S / T)
 DOTTED = ["S.X", "S.Y", "T.X"]
 
 
